@@ -106,3 +106,29 @@ Example C07_ex_veto :       (* a vetoing listener makes the closing block fail w
   let s := snd (step (run c01_init c01_hist3) (OSetListeners [[]; [H_BeforeAllocated]])) in
   fst (step s (OBlock 250 [])) = BlockErr E_HOOK /\ st_bal (snd (step s (OBlock 250 []))) (Escrow Paying 0) 2 = 57.
 Proof. split; vm_compute; reflexivity. Qed.
+
+(* 4. every side condition assumed by the theorems of the other property files is a consequence of the invariant,
+   hence holds in every reachable state: distinct auction ids (ids_ok / gen_ok), well-formed order books and
+   denominations (C03/C04/C05), WF and positive bids (C11/C12/C18), vesting queues (C09), matched counts (C13/C16) *)
+From FR.Proofs Require GenesisFacts MatchDemand MatchConseq PrecondFacts EscrowBlock.
+Theorem C07_invariant_consequences : forall s, Inv s ->
+  ids_ok s /\ GenesisFacts.gen_ok s /\ PrecondFacts.WF s /\ PrecondFacts.bids_pos s
+  /\ (forall id, MatchDemand.book_wf (bids_of s id) (allowed_of s id))
+  /\ (forall a, find_auction s (a_id a) = Some a -> a_type a = Batch ->
+        MatchConseq.denoms_wf (a_pay_denom a) (bids_of s (a_id a)))
+  /\ vqs_wf s /\ mlen_inv s /\ ids_seq s /\ bids_allowed s /\ remaining_inv s /\ escrow_inv s.
+Proof.
+  intros s I.
+  split; [apply (Inv_ids_ok s I)|].
+  split; [apply (inv_ids _ I)|].
+  split; [apply (Inv_WF s I)|].
+  split; [apply (Inv_bids_pos s I)|].
+  split; [intros id; apply EscrowBlock.Inv_book_wf, I|].
+  split; [intros a Fa Ty; apply EscrowBlock.Inv_denoms_wf; assumption|].
+  split; [apply (inv_vqs _ I)|].
+  split; [apply (inv_mlen _ I)|].
+  split; [apply (inv_ids _ I)|].
+  split; [apply (inv_bids_allowed _ I)|].
+  split; [apply (inv_remaining _ I)|apply (inv_escrow _ I)].
+Qed.
+Print Assumptions C07_invariant_consequences.
